@@ -38,7 +38,22 @@ contract(GEN + '.generate_variant_bytecode_parts', props=['C01'], name='opcode-p
                  f' and base_bytecode_suffix._value_size == cfg_int({BC}["suffix"]["size"])'
                  ' and not base_bytecode_suffix._byte_align'
                  ' and base_bytecode_suffix._endian == variant_endian(variant, isa_model))'],
-             modifies=[], allocates=True)})
+             modifies=[], allocates=True),
+             'assemble': dict(
+             where='from:if variant._operand_parser is not None:2', locals={},
+             requires=['allocated(base_bytecode)', 'implies(base_bytecode_suffix is not None, allocated(base_bytecode_suffix))'],
+             may_raise={'SystemExit': 'True', 'KeyError': 'True', 'NotImplementedError': 'True', 'AttributeError': 'True'},
+             ensures=[],
+             on_return=[
+                 # an instruction without operands is its opcode followed by its opcode suffix, if it has one
+                 'implies(result is not None and variant._operand_parser is None, len(value_of(result)._parts) == 1 + ite('
+                 'base_bytecode_suffix is not None, 1, 0) and elems(value_of(result)._parts)[0] is base_bytecode and implies('
+                 'base_bytecode_suffix is not None, elems(value_of(result)._parts)[1] is base_bytecode_suffix))',
+                 # and it is not accepted with operands
+                 'implies(result is not None and variant._operand_parser is None, len(operand_list) == 0)'],
+             modifies=[], allocates=True)},
+         assume_pre={'AssembledInstruction.__init__': 'field widths are configured sizes (bounded far below 2**40) and an instruction has '
+                     'few parts; the bound only keeps the float division of the size computation exact'})
 
 EN = 'bespokeasm.assembler.model.operand.types.enumeration_operand:EnumerationOperand.parse_operand'
 BD, AD = 'self._bytecode_dictionary', 'self._argument_dictionary'
